@@ -121,6 +121,12 @@ class Family:
         return res
 
 
+def r_kern(only, nq, nt, ops=5):
+    def f(tier, seed):
+        return ["--mode", "kern", "--only", only, "--cases", str({"quick": nq, "thorough": nt}[tier]), "--ops", str(ops)]
+    return f
+
+
 def r_core2(tier, seed):
     n = {"quick": 2000, "thorough": 50000}[tier]
     return ["--mode", "random", "--cases", str(n), "--ops", "40" if tier == "quick" else "120",
@@ -208,6 +214,9 @@ PROPS["C06"] = dict(
     technique="Coq proof (atomically publishes only on Ok) + exhaustive fault-index enumeration against the implementation",
     families=[
         Family("fault2", "core2", r_fault2, 1, [(4, "err_noop", ERR_CLASSES)]),
+        Family("kfault2", "core2", lambda tier, seed: ["--mode", "kfault", "--cases", str({"quick": 500, "thorough": 8000}[tier]), "--ops", "3"],
+               1, [(4, "err_noop", ERR_CLASSES)]),
+        Family("kern-all", "core2", r_kern("all", 800, 10000, 4), 1, [(4, "err_noop", ERR_CLASSES)]),
         Family("core2-random", "core2", r_core2, 1, [(4, "err_noop", ERR_CLASSES)]),
         Family("core2-exh3", "core2", x_core2(3), 1, [(4, "err_noop", ERR_CLASSES)], exhaustive=True),
     ],
@@ -224,6 +233,8 @@ PROPS["C08"] = dict(
     technique="Coq proof (block = sequence for programs without read_atomic) + block-vs-sequence differential runs",
     families=[
         Family("compose2", "core2", r_compose2, 1, [], pair=True),
+        Family("kcompose2", "core2", lambda tier, seed: ["--mode", "kcompose", "--cases", str({"quick": 1200, "thorough": 20000}[tier]), "--ops", "3"],
+               1, [], pair=True),
     ],
     trusted=PROPS["C01"]["trusted"],
     assumptions=PROPS["C01"]["assumptions"],
@@ -253,12 +264,6 @@ PROPS["C04"] = dict(
     trusted=PROPS["C01"]["trusted"],
     assumptions=PROPS["C01"]["assumptions"],
 )
-
-def r_kern(only, nq, nt, ops=5):
-    def f(tier, seed):
-        return ["--mode", "kern", "--only", only, "--cases", str({"quick": nq, "thorough": nt}[tier]), "--ops", str(ops)]
-    return f
-
 
 INS_CLASSES = {"1": "C14:null-dart-corrupted-or-map-ill-formed", "2": "edge not replaced by the k+1 consecutive segments",
                "3": "the two sides of the edge are not glued segment by segment",
@@ -295,6 +300,25 @@ PROPS["C13"] = dict(
     technique="Coq model of the kernels + correspondence + extracted Coq specification (exact arithmetic) as per-run validator",
     families=[
         Family("kern-tri", "core2", r_kern("tri", 2500, 40000, 2), 1, [(8, "tri_spec", TRI_CLASSES)]),
+    ],
+    trusted=KERNEL_TRUST,
+    assumptions=PROPS["C01"]["assumptions"],
+)
+
+REM_CLASSES = {"1": "map ill-formed after the operation", "2": "a face is not a triangle / a vertex is undefined",
+               "3": "numbers of vertices/edges/faces did not change by the operation's amounts", "4": "C15:vertex-set-wrong",
+               "5": "signed area of the mesh not conserved", "6": "triangles around the collapsed vertex have mixed orientation",
+               "7": "swap did not produce the two triangles around the other diagonal", "8": "a surviving vertex lost or changed its anchor",
+               "9": "removed darts not flagged", "10": "C15:collapse-vertex-off-midpoint"}
+PROPS["C15"] = dict(
+    level="translation_validation",
+    level_text="swap / cut / collapse (and the orientation routine, anchor algebra) transcribed in Gallina and compared with the "
+               "implementation; the property (triangles stay triangles, well-formedness, V/E/F deltas, vertex set, exact area "
+               "conservation, orientation after collapse, swap = other diagonal, anchors) is an executable Coq predicate "
+               "applied to every implementation observation; proved: atomicity of failures, anchor-merge algebra",
+    technique="Coq model of the kernels + correspondence + extracted Coq specification (exact arithmetic) as per-run validator",
+    families=[
+        Family("kern-remesh", "core2", r_kern("remesh", 1200, 20000, 8), 1, [(9, "remesh_spec", REM_CLASSES)]),
     ],
     trusted=KERNEL_TRUST,
     assumptions=PROPS["C01"]["assumptions"],
